@@ -251,7 +251,8 @@ impl RaAdvService {
                     _ => None,
                 })
                 .collect(),
-        ) {
+        ) && !v.is_empty()
+        {
             options.add_option(icmppkt::NDOptionValue::RecursiveDnsServers((
                 intf.rdnss_lifetime
                     .always_unwrap_or(3 * DEFAULT_MAX_RTR_ADV_INTERVAL),
@@ -268,7 +269,9 @@ impl RaAdvService {
             )))
         }
 
-        if let Some(v) = &intf.dnssl.unwrap_or(config.dns_search.clone()) {
+        if let Some(v) = &intf.dnssl.unwrap_or(config.dns_search.clone())
+            && !v.is_empty()
+        {
             options.add_option(icmppkt::NDOptionValue::DnsSearchList((
                 intf.dnssl_lifetime
                     .always_unwrap_or(3 * DEFAULT_MAX_RTR_ADV_INTERVAL),
